@@ -1,6 +1,7 @@
 #!/bin/bash
 # developer tool: like revert_sweep.sh, but reverts each fix in a scratch worktree outside /repo and /verif and points the check at it (VERIF_REPO),
 # so /repo stays untouched.  usage: revert_sweep_copy.sh [PROPERTY COMMIT]...   (default: every fixed: entry of known_findings.json)
+mkdir -p /tmp/wt
 cd /verif
 if [ $# -gt 0 ]; then printf "%s %s\n" "$@" > /tmp/wt/revert_list.txt; else
 python3 - <<'PY' > /tmp/wt/revert_list.txt
